@@ -12,10 +12,11 @@ func FromStr32(s string, frombit, tobit int32) (int32, uint64) {
 	size := tobit - frombit
 	spanSize := tobit - (frombit & ^7)
 
-	blen := int32(len(s)<<3) - frombit
-
-	if blen > size {
-		blen = size
+	// 8*len(s) does not fit in int32 for strings of 2^28 bytes and more:
+	// clamp to size in int64 first.
+	blen := size
+	if rest := int64(len(s))<<3 - int64(frombit); rest < int64(size) {
+		blen = int32(rest)
 	}
 
 	if blen <= 0 {
@@ -23,7 +24,8 @@ func FromStr32(s string, frombit, tobit int32) (int32, uint64) {
 	}
 
 	l := int32(len(s))
-	toByte := (tobit + 7) >> 3
+	// (tobit+7)>>3 without the int32 overflow of tobit+7 for tobit > 2^31-8
+	toByte := tobit>>3 + (tobit&7+7)>>3
 	if l > toByte {
 		l = toByte
 	}
